@@ -181,8 +181,11 @@ SINGLE = ["k_unsbx_ctx", "k_sbx_ctx", "k_unsbx_noctx", "k_sbx_noctx", "k_roundtr
 # ------------------------------------------------------------------ multi-instance
 def bm_pre(ctx):
     size = 1 << 32
-    bs = [ctx.sandbox_base(32, "b%d" % i) for i in range(3)]
-    ctx.assume(bs[0] != bs[1], bs[0] != bs[2], bs[1] != bs[2])
+    bs = [ctx.sandbox_base(32, "b%d" % i, aligned=False) for i in range(3)]
+    for i in range(3):
+        for j in range(i + 1, 3):      # regions pairwise disjoint
+            ctx.assume(z3.Or(z3.UGE(bs[i] - bs[j], BV(size, 64)), z3.UGE(bs[j] - bs[i], BV(size, 64))),
+                       z3.Or(z3.UGE(bs[i], bs[j] + BV(size, 64)), z3.UGE(bs[j], bs[i] + BV(size, 64))))
     order = ctx.sym("order", 32)
     destroy = ctx.sym("destroy", 32)
     ctx.assume(z3.ULT(order, 6), z3.ULT(destroy, 7))
